@@ -32,7 +32,7 @@ BASE = dict(N=2, PR=2, MinStake=2, MaxVals=1, UnstakeTime=1, Window=2, MinSigned
             JailDur=1, MaxEvAge=1, FracDen=4, FracDS=2, FracDT=1, Fee=1, GenBal=(9, 9), GenVals=set(),
             DaoTokens=3, Dev=set(), Amts={2, 4}, Dts={1}, BurnNums={2}, MaxHeight=3, MaxTx=2, MaxExt=0,
             EvOn=False, MissOn=False, BadTxOn=False, Kinds={"stake", "unstake"}, SendTos={1}, Props={1},
-            AwardTos={1}, EvPowers={1}, EvUnknown=False, MaxRO=0, ParamOwner=1, ParamVals={1, 2}, GenExported=False, GenPrev=(-1, -1), MaxExports=0, MaxCrashes=0, SecpUsers=set())
+            AwardTos={1}, EvPowers={1}, EvUnknown=False, MaxRO=0, ParamOwner=1, ParamVals={1, 2}, GenExported=False, GenPrev=(-1, -1), MaxExports=0, MaxCrashes=0, SecpUsers=set(), EvHBacks={1}, EvTwo=False)
 
 
 def cfg(**over):
@@ -150,7 +150,7 @@ PROFILES = {
         "mc": [cfg(N=2, MaxVals=2, GenVals=gv((1, 4), (2, 2)), Kinds={"unstake"}, MaxHeight=2, MaxTx=1, EvOn=True, MissOn=True, EvPowers={0, 1, 2, 9}, MaxExt=1, BurnNums={0, 1, 2, 4},
                    Window=1, MinSignedNum=1, MinSignedDen=1, FracDS=2, FracDT=1)],
         "sim": [cfg(N=3, GenBal=(9, 9, 9), GenVals=gv((1, 7), (2, 4), (3, 2)), MaxVals=3, Kinds={"stake", "unstake", "unjail"}, Amts={2, 5}, MaxHeight=6, MaxTx=2, EvOn=True, MissOn=True,
-                    EvPowers={0, 1, 2, 3, 9}, MaxExt=2, BurnNums={0, 1, 2, 3, 4}, Window=2, FracDen=8, FracDS=3, FracDT=1, Dts={0, 1, 2}, MaxEvAge=1, MaxCrashes=1),
+                    EvPowers={0, 1, 2, 3, 9}, MaxExt=2, BurnNums={0, 1, 2, 3, 4}, Window=2, FracDen=8, FracDS=3, FracDT=1, Dts={0, 1, 2}, MaxEvAge=1, MaxCrashes=1, EvHBacks={1, 0, 2, -2}, EvTwo=True),
                 cfg(N=3, GenBal=(9, 9, 9), GenVals=gv((1, 7), (2, 4), (3, 2)), MaxVals=3, Kinds={"unstake"}, MaxHeight=6, MaxTx=1, EvOn=True, MissOn=True,
                     EvPowers={1, 3}, MaxExt=1, BurnNums={1, 8}, Window=1, MinSignedNum=1, MinSignedDen=1, FracDen=8, FracDS=8, FracDT=8),
                 # a downtime slash computed from a vote power that is older (larger) than the stake a burn left
@@ -177,7 +177,7 @@ PROFILES = {
         "mc": [cfg(N=2, GenBal=(9, 9), GenVals=gv((1, 4), (2, 2)), MaxVals=2, Kinds={"unjail", "unstake", "stake"}, Amts={2}, MaxTx=2, MissOn=True, EvOn=True, EvPowers={1}, Window=1,
                    MinSignedNum=1, MinSignedDen=1, MaxHeight=4, JailDur=2, Dts={1})],
         "sim": [cfg(N=3, GenBal=(9, 9, 9), GenVals=gv((1, 6), (2, 4), (3, 2)), MaxVals=2, Kinds={"unjail", "unstake", "stake"}, Amts={2, 3}, MaxTx=3, MissOn=True, EvOn=True, EvPowers={1, 2},
-                    Window=2, MinSignedNum=1, MinSignedDen=2, MaxHeight=10, JailDur=2, Dts={0, 1, 2, 3}, FracDen=8, FracDT=1, FracDS=2, MaxCrashes=1),
+                    Window=2, MinSignedNum=1, MinSignedDen=2, MaxHeight=10, JailDur=2, Dts={0, 1, 2, 3}, FracDen=8, FracDT=1, FracDS=2, MaxCrashes=1, EvHBacks={1, -2}, EvTwo=True),
                 # export / import restart with jailed and tombstoned validators
                 cfg(N=3, GenBal=(9, 9, 9), GenVals=gv((1, 6), (2, 4), (3, 4)), MaxVals=3, Kinds={"unjail", "unstake", "stake"}, Amts={2, 4}, MaxTx=2, MissOn=True, EvOn=True, EvPowers={1},
                     Window=2, MaxHeight=7, JailDur=2, UnstakeTime=2, Dts={1, 2}, MaxExports=1),
@@ -606,7 +606,7 @@ def replay(prop, path):
     c = {}
     for k, val in rp["consts"].items():
         c[k] = val
-    for k in ("Dev", "Amts", "Dts", "BurnNums", "Kinds", "SendTos", "Props", "AwardTos", "EvPowers", "SecpUsers", "ParamVals"):
+    for k in ("Dev", "Amts", "Dts", "BurnNums", "Kinds", "SendTos", "Props", "AwardTos", "EvPowers", "SecpUsers", "ParamVals", "EvHBacks"):
         c[k] = set(c.get(k, ()))
     for k, dflt in BASE.items():   # replay files written before a constant existed
         c.setdefault(k, dflt)
